@@ -400,6 +400,7 @@ class Engine:
         self.extra_exc = {}
         self.spec_env = {}
         self.depth = 0
+        self.ghost = {}
         self.witness = {}         # named arbitrary objects/values created by stubs (reported in counter-models)
 
     # ---- path management
@@ -1381,6 +1382,9 @@ class Engine:
             m = self.find_method(it, '__iter__')
             if m is not None:
                 return self.iterate_concrete(self.call_function(m, [], {}))
+            h = self.stub_method(it, '__iter__')
+            if h is not None:
+                return self.iterate_concrete(h(self, [], {}))
         if is_sym(it) and it.t == STR:
             raise Unsupported('iteration over a symbolic string')
         raise Unsupported('iteration over %s' % pytype(it))
@@ -1497,11 +1501,21 @@ class Engine:
         for s in stmts:
             self.exec(s, fr)
 
+    monitor = None     # fn(engine, node, frame): ghost-state monitor evaluated after every statement (typestate properties)
+
     def exec(self, node, fr):
         m = getattr(self, 's_' + type(node).__name__, None)
         if m is None:
             raise Unsupported('statement %s at line %s' % (type(node).__name__, getattr(node, 'lineno', '?')))
-        return m(node, fr)
+        if self.monitor is None:
+            return m(node, fr)
+        try:
+            r = m(node, fr)
+        except (PyRaise, _Return, _Break, _Continue):
+            self.monitor(self, node, fr)
+            raise
+        self.monitor(self, node, fr)
+        return r
 
     def s_Expr(self, node, fr):
         v = node.value
@@ -1525,6 +1539,11 @@ class Engine:
         return d.startswith('logging.') or d.startswith('sys.stderr.') or d.startswith('sys.stdout.') or d.startswith('warnings.')
 
     def do_yield(self, v, fr):
+        cb = getattr(fr, 'ctx_yield', None)
+        if cb is not None:
+            val = self.eval(v.value, fr) if getattr(v, 'value', None) is not None else None
+            cb(val)
+            return None
         if fr.yields is None:
             raise Unsupported('yield in non-generator frame')
         if isinstance(v, ast.YieldFrom):
